@@ -7,19 +7,19 @@ ROOT = os.path.dirname(os.path.dirname(os.path.abspath(__file__)))
 
 # pid -> (technique, level text, level_note)
 CHECKS = {
-    "C20": ("reference-model monitor: real dataflow.build_def_use on random graphs of define/use statements (real Graph/StatementBlock, catch edges) and, as a passive wrapper, inside the decompilation of every shipped method; oracle = explicit path search over the instruction-level CFG",
+    "C20": ("reference-model monitor: real dataflow.build_def_use on random graphs of define/use statements (real Graph/StatementBlock, catch edges) and, as a passive wrapper, inside the decompilation of every shipped method; oracle = explicit path search over the instruction-level CFG; the chains of the same graph built a second time",
             "UD compared as sets per (variable, use) key incl. parameter definitions at -1,-2,..; DU must be the exact inverse.",
             "edges leave from the end of a node (the decompiler's own graph definition); duplicate list entries are not judged"),
     "C21": ("translation check by execution: generated int/long methods -> DEX -> DAD source -> javac -> JVM, every call compared with an independent Dalvik interpreter (cross-checked against the JVM on the generator's own Java rendering); single-subject pools attribute failures, explain-away re-runs attribute random methods; parameter reassignment, exit-goto loop latches, accumulator operand shapes, loop-first and three-level nesting patterns",
             "1075 single-subject methods (every operator x form x operand shape, comparison, two-level nesting, switch shape, declaration pattern) + random pools on boundary and random argument tuples.",
             "11 structural decompiler defects are known findings keyed by mechanism (switch and do-while structuring, division side effects, declarations); residual failures of random methods containing a switch or do-while are one composite known mechanism; argument tuples are sampled, not exhaustive"),
-    "C22": ("determinism monitor: every method decompiled in several fresh processes under different PYTHONHASHSEED, junk allocations, gc settings, shuffled order and a hash-perturbation monitor (per-object random __hash__ for decompiler nodes); SHA-256 of the source must agree; site counters show sets with >= 2 elements were iterated; a child that runs process() twice on every DvMethod/DvClass object; Annotation_classes.dex (10k methods) in the corpus",
+    "C22": ("determinism monitor: every method decompiled in several fresh processes under different PYTHONHASHSEED, junk allocations, gc settings, shuffled order and a hash-perturbation monitor (per-object random __hash__ for decompiler nodes); SHA-256 of the source must agree; site counters show sets with >= 2 elements were iterated; a child that runs process() twice on every DvMethod/DvClass object; Annotation_classes.dex (10k methods) in the corpus; crafted DEX with every pair/triple of access flags; a child that requests ASTs of other methods in between",
             "All methods of classes.dex and the small shipped DEX files plus generated methods, 6 (quick) / 12 (thorough) children; an isolation child attributes a difference to the set-iteration site.",
             "hash perturbation over-approximates layouts for hash-ordered containers only; allocator behaviours cannot be enumerated"),
     "C25": ("exhaustive translation check by execution: all 576 two-node and (thorough) all 28 800 three-node condition-chain graphs x every truth assignment, decompiled, compiled by javac, run in a JVM and compared with the interpreter; Condition.__init__ merge counter must be > 0; the same enumeration again over exits that re-join in one return (negated printing)",
             "Quick: all two-node graphs + 3000 sampled three-node graphs; thorough: exhaustive.",
             "javac 17/JVM 17 give the meaning of the printed condition"),
-    "C36": ("schedule enumeration against the real code: real processes importing androguard.session are paused at Table.__len__/insert (and table creation) by a cross-process rendez-vous scheduler; ALL interleavings of read/insert for k=2 (6) and k=3 (90) on a fresh and a prepared database; offline oracle over the recorded history",
+    "C36": ("schedule enumeration against the real code: real processes importing androguard.session are paused at Table.__len__/insert (and table creation) by a cross-process rendez-vous scheduler; ALL interleavings of read/insert for k=2 (6) and k=3 (90) on a fresh and a prepared database; offline oracle over the recorded history; point R = any read of the session table; a database with 1200 sessions; one real-time scenario (a process held 30 s between INSERT and COMMIT)",
             "Extended read/sync/create/insert trees and 16-process stress rounds with seeded sleeps in thorough.",
             "pauses sit between statements executed in separate autocommit transactions (points where the OS can pre-empt the process); watchdog => inconclusive"),
     "C37": ("sys.addaudithook file-creation monitor (realpath at event time) + before/after snapshot of a canary parent around the real export_apps_to_format run in a sandbox on generated DEX files with hostile class and method names; NUL / inner ';' / look-alike dots in names; an earlier export to another directory in the same process",
@@ -31,19 +31,19 @@ CHECKS = {
     "C28": ("reference-model monitor: random resource-table models serialised by an independent resources.arsc writer (vf/model/arscw.py) -> every ARSCParser listing and every resource id compared with the model",
             "1-2 packages, many types/configs (locales incl. 3-letter/script/variant, density, sdk), plain/complex/compact entries, 32-bit/sparse/16-bit offsets, holes, flags, acyclic references; per-encoding pools.",
             "shapes restricted to what aapt/aapt2 emit; writer read-back parses every shipped resources.arsc"),
-    "C29": ("sys.monitoring step budget + RecursionError monitor around get_resolved_res_configs / get_app_name / get_app_icon on generated tables with reference chains and cycles of length 1..5 (plain and through bag items); compact entries and mixtures; every query repeated on the same parser",
+    "C29": ("sys.monitoring step budget + RecursionError monitor around get_resolved_res_configs / get_app_name / get_app_icon on generated tables with reference chains and cycles of length 1..5 (plain and through bag items); compact entries and mixtures; every query repeated on the same parser; @null items, package ids 0x01/0x02/0x7e/0x7f, and no value may be reported that no reachable entry stores",
             "Budget calibrated on the acyclic chains of the same run; acyclic chains are also compared exactly; mechanism names carry the cycle length and entry kind.",
             "budget = multiple of the acyclic maximum; any exception other than RecursionError/budget is reported under its own mechanism"),
     "C31": ("reference-model monitor: random manifest models -> axmlw -> zip -> APK(bytes, raw=True); every manifest query compared with the model (multisets where androguard gives no order); queries asked in random order and a second time on the same object; intent-filter children shuffled",
             "Names with/without dots/leading dot, duplicate permissions, maxSdkVersion, four component kinds + aliases, MAIN/LAUNCHER on 0-3 components, enabled=false, SDK attributes present/absent/codename, features, libraries, attributes with and without namespace.",
             "Android's name completion rule; MAIN and LAUNCHER split over two filters is not generated"),
-    "C32": ("postcondition contract on APK.get_certificate_der with an independent PKCS#7 verifier (own DER reader + cryptography) over generated v1-signed APKs and single-byte corruptions of .SF / signature + structured alterations; all shipped v1 blocks; get_certificate_der asked with max_sdk_version on both sides of 24",
+    "C32": ("postcondition contract on APK.get_certificate_der with an independent PKCS#7 verifier (own DER reader + cryptography) over generated v1-signed APKs and single-byte corruptions of .SF / signature + structured alterations; all shipped v1 blocks; get_certificate_der asked with max_sdk_version on both sides of 24; Ed25519/Ed448 signers (key types outside RSA/EC/DSA: a certificate may only be reported if it verifies)",
             "RSA/EC/DSA x SHA-1/256 x signed attributes on/off, 1-2 SignerInfos, extra bag certificates; thorough = every byte of .SF and signature value x 3 values.",
             "keys and DSA/ECDSA signatures use OS randomness (cryptography cannot be seeded); everything else seeded"),
-    "C33": ("reference-model monitor: APK Signing Blocks built by vf/model/sigblockw.py (v2/v3/v3.1, unknown ids, padding, duplicates, 1-3 signers, 0-3 digests/signatures) inserted before the central directory -> flags, signers, digests, certificates, SDK bounds, attributes, public keys; 135 shipped blocks compared with an own reader",
+    "C33": ("reference-model monitor: APK Signing Blocks built by vf/model/sigblockw.py (v2/v3/v3.1, unknown ids, padding, duplicates, 1-3 signers, 0-3 digests/signatures) inserted before the central directory -> flags, signers, digests, certificates, SDK bounds, attributes, public keys; 135 shipped blocks compared with an own reader; archives and comments around the 64 KiB end-of-central-directory window; objects built from a path whose file is replaced before the first query",
             "Single-element and multi-element pools; duplicate flag asked first on a fresh object and after other queries.",
             "an empty archive carrying a signing block is not generated"),
-    "C34": ("reference-model monitor with python zipfile as second reader: generated archives (stored/deflated, non-ASCII/nested names, 0-5 DEX files and 8 look-alike families) -> get_files/get_file/FileNotPresent/get_dex_names/get_all_dex/is_multidex",
+    "C34": ("reference-model monitor with python zipfile as second reader: generated archives (stored/deflated, non-ASCII/nested names, 0-5 DEX files and 8 look-alike families) -> get_files/get_file/FileNotPresent/get_dex_names/get_all_dex/is_multidex; every missing-entry request and get_dex() repeated",
             "~40 near-miss absent names per archive; manifests valid/absent/garbage.",
             "zip64, encrypted entries, duplicate names not covered"),
     "C02": ("online monitor on the real linear sweep (checking wrapper per yielded instruction + sys.monitoring step budget) + reference-model comparison on generated valid code and all shipped methods; every yielded length cross-checked against the independent decoder / payload header; a DCode object asked three times about the same hostile bytes",
@@ -52,7 +52,7 @@ CHECKS = {
     "C04": ("reference-model monitor: generated static values / annotations with every legal value_arg width at sign boundaries -> EncodedValue API and decompiled initialiser text; big-index pool (indices >= 0x80 / 0x8000), a member-less annotated class, String/Class initialisers of DvClass.get_source",
             "Every integral type x boundary value x every legal width, chars, booleans, null, string/type/field/method/enum references, nested arrays and annotations.",
             "float/double not in the statement; printed initialiser compared for integral/char/boolean fields"),
-    "C08": ("reference-model monitor: determineException / get_tries on generated code items and all shipped methods vs the try table decoded by an independent reader; second Analysis over the same DEX object; contiguous tries sharing one handler list; non-minimal LEB128; handler entries must be exactly [type, addr]",
+    "C08": ("reference-model monitor: determineException / get_tries on generated code items and all shipped methods vs the try table decoded by an independent reader; second Analysis over the same DEX object; contiguous tries sharing one handler list; non-minimal LEB128; handler entries must be exactly [type, addr]; handler lists of 62..130 clauses; DEX files of 150 methods written at 32/64 different 4-byte shifts (I/O buffer windows)",
             "Generated code items with 0-4 try items (typed, catch-all, shared handler lists, odd instruction counts => padding) and all shipped methods with tries.",
             "compared as a multiset of ranges (determineException groups by handler offset)"),
     "C10": ("invariant monitor over real MethodAnalysis basic blocks (contiguity, coverage, instruction slices, required leaders, terminators only last) on generated CFGs and all shipped methods; payloads in front of their instruction, branches leaving the method, contiguous tries, second Analysis over the same DEX object",
@@ -79,10 +79,10 @@ CHECKS = {
     "C17": ("history monitor: after every step of a random set_name/reload/query history all item names and const-string operands are compared with a dictionary model; python export switched on in 30% of the histories; lazy binding by index",
             "Histories up to 30 steps biased toward items sharing a name string.",
             "three known findings (string-index hook) keyed by mechanism; any divergence without name-string sharing is a VIOLATION"),
-    "C35": ("sys.monitoring step budget around the real parsers (DEX, AXMLPrinter, ARSCParser, APK) on mutated/crafted/truncated inputs; mechanism = innermost running function when the budget ran out; lazily parsed APK Signing Block with one length field changed / bytes after the EOCD record",
+    "C35": ("sys.monitoring step budget around the real parsers (DEX, AXMLPrinter, ARSCParser, APK) on mutated/crafted/truncated inputs; mechanism = innermost running function when the budget ran out; lazily parsed APK Signing Block with one length field changed / bytes after the EOCD record; generated APK seeds for SDK levels 1..40; native-stall probe: 60 name-shaped documents parsed in processes of their own under a confirmed wall-clock limit (loops inside C code are invisible to the step counter)",
             "Thousands of hostile inputs per parser per run derived from generated DEX files and every small shipped DEX/AXML/ARSC/APK; budget = 100x the step envelope calibrated on the valid seeds in the same run.",
             "C-level loops are invisible to the counter (watchdog => inconclusive); mild super-linearity can pass"),
-    "C40": ("invariant monitor: block boundaries / special_ins keys are instruction offsets; get_special_ins(idx) IS the object at the encoded payload offset and the switch successors come from that same payload (aligned, misaligned, shared payloads); payloads in front of their instruction; encoded offsets at which no instruction starts must not be linked",
+    "C40": ("invariant monitor: block boundaries / special_ins keys are instruction offsets; get_special_ins(idx) IS the object at the encoded payload offset and the switch successors come from that same payload (aligned, misaligned, shared payloads); payloads in front of their instruction; encoded offsets at which no instruction starts must not be linked; methods whose start address was moved (set_code_idx) checked against get_instructions_idx of the same method",
             "Generated methods incl. misaligned payloads and shared payloads + all shipped methods.",
             "an encoded offset that is not an instruction start or not a payload of the right kind is invalid code: don't care"),
     "C01": ("reference-model monitor: real dex.get_instruction vs bit-sliced Dalvik decoder; first code unit exhaustive (65536 values), boundary/random remaining units, in-pool index resolution; the three payload pseudo-instructions (signed keys/targets, widths, data, header-derived length of truncated buffers)",
@@ -91,22 +91,22 @@ CHECKS = {
     "C05": ("reference-model monitor: generated class models -> independent DEX writer -> DEX(); canonical dump and all name/descriptor lookups (incl. near-miss and concatenation-collision keys) compared with the model; regexp name lookups with unanchored names, prefixes and wildcard patterns (oracle re.match)",
             "Hundreds (quick) / thousands (thorough) of random class models with adversarial identifiers, shared member names, index-diff encoded member lists, code-less methods, DEX 035-039.",
             "trusts vf/model/dexw.py (self-checked output); descriptors compared with spaces removed"),
-    "C06": ("reference-model monitor: strings over the full code-point range encoded with an own MUTF-8 encoder, compared as UTF-16 code units via get_strings / get_string(i) / member names / const-string operands",
+    "C06": ("reference-model monitor: strings over the full code-point range encoded with an own MUTF-8 encoder, compared as UTF-16 code units via get_strings / get_string(i) / member names / const-string operands; the returned list is modified by the caller and the pool asked again; identifiers of 126..1000 bytes",
             "Random pools incl. U+0000, lone and reversed surrogates, non-BMP, byte lengths around the reader's 128-byte chunk size.",
             "MUTF-8 decoding is delegated by androguard to the third-party mutf8 extension"),
     "C07": ("metamorphic monitor: all permutations of 6- and 7-entry map lists (5760 files) + random permutations of random models; dump must equal the unpermuted file's; MapItem.parse order logged",
             "Exhaustive over the permutations of two tiny files, sampled for larger ones.",
             "trusts that permuting map entries leaves the file otherwise valid (checksum and signature recomputed)"),
-    "C09": ("fault enumeration with a parse-counter monitor: every offset >= 12 of 5 small generated DEX files x byte values; wrong magic/endian/header-size with re-fixed checksum; MapList/MapItem.parse counters must stay 0 on rejection; the sweep repeated on the tolerated magic spellings (dey, other version digits)",
+    "C09": ("fault enumeration with a parse-counter monitor: every offset >= 12 of 5 small generated DEX files x byte values; wrong magic/endian/header-size with re-fixed checksum; MapList/MapItem.parse counters must stay 0 on rejection; the sweep repeated on the tolerated magic spellings (dey, other version digits); structured wrong endian tags (byte permutations, windows over two tags, single-bit changes)",
             "Every single-byte position of the chosen files is changed (3 values quick, all 255 thorough) and DEX() must raise before any map item is parsed.",
             "version digits of the magic and the ODEX magic are tolerated by design"),
     "C23": ("reference-model monitor: writer.string() on all 65536 BMP code points + random full-range strings, literal decoded by an own JLS 3.3/3.10.7 lexer; thorough adds real javac + JVM printing the code units; const-strings (incl. true/false/null/numbers) through the whole decompiler",
             "Exhaustive over the BMP as one-char strings; random strings with controls, quotes, backslash-u sequences, lone surrogates, supplementary characters.",
             "own JLS lexer (cross-checked against javac in thorough); strings with a lone high surrogate directly followed by a backslash are excluded from the javac oracle (JDK 17 lexer quirk), JLS oracle still decides them"),
-    "C03": ("reference-model monitor on direct calls (Leb128.java semantics), exhaustive 1-2 byte sequences + boundary product + random",
+    "C03": ("reference-model monitor on direct calls (Leb128.java semantics), exhaustive 1-2 byte sequences + boundary product + random; the bytearray a writer returned is modified in place and the value encoded again (aliasing)",
             "Every 1- and 2-byte sequence exhaustively, boundary products for 3-5 bytes, random sequences and encode->decode of boundary/random 32-bit values are executed against the real functions and compared with an independent Leb128.java model. Held = no divergence on what was executed.",
             "trusts the re-implementation of Leb128.java in vf/checks/c03.py; 5-byte sequences encoding >32 bits are out of domain"),
-    "C18": ("reference-model monitor: real Graph.immediate_dominators vs iterative dominator sets, exhaustive graphs n<=4 (quick) / n<=5 (thorough) + random families; edit histories with catch edges between queries; postcondition monitor on Graph.immediate_dominators inside the real decompilation of ~3200 shipped/generated/hand-assembled methods",
+    "C18": ("reference-model monitor: real Graph.immediate_dominators vs iterative dominator sets, exhaustive graphs n<=4 (quick) / n<=5 (thorough) + random families; edit histories with catch edges between queries; postcondition monitor on Graph.immediate_dominators inside the real decompilation of ~3200 shipped/generated/hand-assembled methods; graphs of 4890..6000 nodes and straight-line chains of 2400..3800 blocks; traversals left before their end in the histories",
             "All adjacency matrices up to n nodes are run through the real Lengauer-Tarjan code (edges split over edges/catch_edges) and compared with the textbook definition; random families to 300 nodes. Exhaustive for small n, sampled beyond.",
             "trusts vf/model/graphs.py (two independent reference algorithms cross-checked on every random graph with n<=30)"),
     "C19": ("invariant monitor on the real Graph.compute_rpo numbering over the same graph families as C18; edit histories with catch edges and node removal between numberings, second numbering of the same graph; postcondition monitor on Graph.compute_rpo inside the real decompilation of ~3200 shipped/generated/hand-assembled methods",
@@ -118,13 +118,13 @@ CHECKS = {
     "C27": ("reference-model monitor (TypedValue.complexToFloat / Res_value meanings) on format_value, ARSCResStringPoolRef.format_value, get_resource_dimen/color",
             "Grid over type x radix x unit x mantissa boundaries x sign plus random 32-bit data, printed numbers compared numerically with Android's interpretation.",
             "numeric tolerance rel 1e-5/abs 1e-6; undefined unit codes not generated"),
-    "C30": ("reference-model monitor: AOSP packLanguageOrRegion vs real ARSCResTableConfig parse + get_language_and_region + locale= constructor",
+    "C30": ("reference-model monitor: AOSP packLanguageOrRegion vs real ARSCResTableConfig parse + get_language_and_region + locale= constructor; histories of set/read steps on one object incl. refused (raising) set calls",
             "All 2-letter languages x all [A-Z0-9]^2 regions (sampled per language in quick), all 26^3 packed languages, all 3-digit regions, both directions.",
             "trusts the AOSP packing re-implemented in vf/checks/c30.py"),
-    "C38": ("postcondition contract on the real clean_file_name + audit hook (sys.addaudithook) that it creates nothing, in sandbox dirs with colliding files",
+    "C38": ("postcondition contract on the real clean_file_name + audit hook (sys.addaudithook) that it creates nothing, in sandbox dirs with colliding files; absolute, relative and root-level (/name) call styles",
             "Thousands of random names (reserved/control/unicode chars, lengths around the 230 limit, long extensions, device names) with pre-created collisions; every result checked against the five portability rules.",
             "control characters = U+0000-U+001F; NUL not generated"),
-    "C39": ("exhaustive enumeration of levels -5..100 x {int,str} x loaders against the fallback rule computed from the directory listing",
+    "C39": ("exhaustive enumeration of levels -5..100 x {int,str} x loaders against the fallback rule computed from the directory listing; repeated with CONF['DEFAULT_API'] set to other levels; int() spellings of a level for the permission loaders",
             "Finite space enumerated completely on every run; results compared with json.load of the file the documented rule selects.",
             "rule as documented in load_permissions' docstring"),
 }
